@@ -1482,3 +1482,341 @@ Proof.
   - intros Hwf. destruct (decipher_encipher r pre post Hwf Hpre) as (s' & He' & Hd).
     rewrite He in He'. inversion He'; subst. exact Hd.
 Qed.
+
+(* ================= Part E: the pair list implements HashMap<u128, VecDeque<u128>> ================= *)
+(* abstraction: the queue of tag t in the pair list *)
+Fixpoint queue (t : N) (fs : fields) : list N :=
+  match fs with [] => [] | (t', v) :: r => if N.eqb t' t then v :: queue t r else queue t r end.
+
+Definition nonempty (l : list N) : option (list N) := match l with [] => None | _ => Some l end.
+
+(* q represents fs *)
+Definition repr (q : qmap) (fs : fields) : Prop := forall t, q_get t q = nonempty (queue t fs).
+
+Lemma q_get_set_same t l q : q_get t (q_set t l q) = Some l.
+Proof.
+  induction q as [|[t' l'] r IH]; cbn [q_set q_get]; [rewrite N.eqb_refl; reflexivity|].
+  destruct (N.eqb_spec t' t) as [->|Hne]; cbn [q_get].
+  - rewrite N.eqb_refl. reflexivity.
+  - destruct (N.eqb_spec t' t); [contradiction|]. exact IH.
+Qed.
+
+Lemma q_get_set_other t u l q : u <> t -> q_get u (q_set t l q) = q_get u q.
+Proof.
+  intros Hne. induction q as [|[t' l'] r IH]; cbn [q_set q_get].
+  - destruct (N.eqb_spec t u); [congruence|reflexivity].
+  - destruct (N.eqb_spec t' t) as [->|Hn]; cbn [q_get].
+    + destruct (N.eqb_spec t u); [congruence|reflexivity].
+    + destruct (N.eqb t' u); [reflexivity|exact IH].
+Qed.
+
+Lemma q_get_remove_other t u q : u <> t -> q_get u (q_remove t q) = q_get u q.
+Proof.
+  intros Hne. induction q as [|[t' l'] r IH]; cbn [q_remove q_get]; [reflexivity|].
+  destruct (N.eqb_spec t' t) as [->|Hn]; cbn [q_get].
+  - destruct (N.eqb_spec t u); [congruence|reflexivity].
+  - destruct (N.eqb t' u); [reflexivity|exact IH].
+Qed.
+
+(* keys are distinct *)
+Fixpoint keys_distinct (q : qmap) : Prop :=
+  match q with [] => True | (t, _) :: r => q_get t r = None /\ keys_distinct r end.
+
+Lemma q_get_remove_same t q : keys_distinct q -> q_get t (q_remove t q) = None.
+Proof.
+  induction q as [|[t' l'] r IH]; intros H; cbn [q_remove q_get]; [reflexivity|].
+  cbn [keys_distinct] in H. destruct H as [H1 H2].
+  destruct (N.eqb_spec t' t) as [->|Hn]; [exact H1|]. cbn [q_get].
+  destruct (N.eqb_spec t' t); [contradiction|]. apply IH. exact H2.
+Qed.
+
+Lemma keys_distinct_set t l q : keys_distinct q -> keys_distinct (q_set t l q).
+Proof.
+  induction q as [|[t' l'] r IH]; intros H; cbn [q_set]; [cbn; auto|].
+  cbn [keys_distinct] in H. destruct H as [H1 H2].
+  destruct (N.eqb_spec t' t) as [->|Hn]; cbn [keys_distinct]; [auto|].
+  split; [|apply IH; exact H2]. rewrite q_get_set_other by assumption. exact H1.
+Qed.
+
+Lemma keys_distinct_remove t q : keys_distinct q -> keys_distinct (q_remove t q).
+Proof.
+  induction q as [|[t' l'] r IH]; intros H; cbn [q_remove]; [exact I|].
+  cbn [keys_distinct] in H. destruct H as [H1 H2].
+  destruct (N.eqb_spec t' t) as [->|Hn]; [exact H2|]. cbn [keys_distinct].
+  split; [|apply IH; exact H2]. rewrite q_get_remove_other by assumption. exact H1.
+Qed.
+
+Lemma queue_app t a b : queue t (a ++ b) = queue t a ++ queue t b.
+Proof.
+  induction a as [|[t' v] r IH]; [reflexivity|]. cbn [app queue].
+  destruct (N.eqb t' t); [cbn [app]; rewrite IH|]; auto.
+Qed.
+
+(* push_back of the code = appending the pair at the end of the stream *)
+Lemma repr_push q fs t v : repr q fs -> repr (q_push t v q) (fs ++ [(t, v)]).
+Proof.
+  intros H u. rewrite queue_app. cbn [queue]. unfold q_push.
+  destruct (N.eqb_spec t u) as [->|Hne].
+  - rewrite (H u). destruct (queue u fs) as [|x l]; cbn [nonempty]; rewrite q_get_set_same.
+    + reflexivity.
+    + destruct (x :: l) eqn:E; [discriminate|]. cbn [app nonempty]. reflexivity.
+  - rewrite app_nil_r. destruct (q_get t q); rewrite q_get_set_other by congruence; apply H.
+Qed.
+
+Lemma keys_distinct_push q t v : keys_distinct q -> keys_distinct (q_push t v q).
+Proof. intros H. unfold q_push. destruct (q_get t q); apply keys_distinct_set; assumption. Qed.
+
+Lemma get_first_queue t fs : get_first t fs = hd_error (queue t fs).
+Proof.
+  induction fs as [|[t' v] r IH]; [reflexivity|]. cbn [get_first queue].
+  destruct (N.eqb t' t); [reflexivity|exact IH].
+Qed.
+
+Lemma queue_remove_same t fs : queue t (remove_first t fs) = tl (queue t fs).
+Proof.
+  induction fs as [|[t' v] r IH]; [reflexivity|]. cbn [remove_first queue].
+  destruct (N.eqb_spec t' t) as [->|Hn]; [reflexivity|]. cbn [queue].
+  destruct (N.eqb_spec t' t); [contradiction|exact IH].
+Qed.
+
+Lemma queue_remove_other t u fs : u <> t -> queue u (remove_first t fs) = queue u fs.
+Proof.
+  intros Hne. induction fs as [|[t' v] r IH]; [reflexivity|]. cbn [remove_first queue].
+  destruct (N.eqb_spec t' t) as [->|Hn].
+  - destruct (N.eqb_spec t u); [congruence|reflexivity].
+  - cbn [queue]. destruct (N.eqb t' u); [rewrite IH|]; auto.
+Qed.
+
+Lemma repr_drained q fs t x rest : keys_distinct q -> repr q fs -> queue t fs = x :: rest ->
+  repr (q_drained t rest q) (remove_first t fs) /\ keys_distinct (q_drained t rest q).
+Proof.
+  intros Hd H Hq. split.
+  - intros u. destruct (N.eq_dec u t) as [->|Hne].
+    + rewrite queue_remove_same, Hq. cbn [tl]. unfold q_drained. destruct rest as [|y r].
+      * rewrite q_get_remove_same by assumption. reflexivity.
+      * rewrite q_get_set_same. reflexivity.
+    + rewrite queue_remove_other by assumption. unfold q_drained. destruct rest as [|y r].
+      * rewrite q_get_remove_other by assumption. apply H.
+      * rewrite q_get_set_other by assumption. apply H.
+  - unfold q_drained. destruct rest; [apply keys_distinct_remove|apply keys_distinct_set]; assumption.
+Qed.
+
+(* Tag::take on the map and on the pair list return the same value and related stores *)
+Lemma take1_refines {T} t (w : N -> option T) q fs : keys_distinct q -> repr q fs ->
+  fst (q_take1 t w q) = fst (take1 t w fs) /\
+  repr (snd (q_take1 t w q)) (snd (take1 t w fs)) /\ keys_distinct (snd (q_take1 t w q)).
+Proof.
+  intros Hd H. unfold q_take1, take1. rewrite get_first_queue, (H t).
+  destruct (queue t fs) as [|v rest] eqn:Eq; cbn [nonempty hd_error]; [auto|].
+  destruct (w v) as [x|]; cbn [fst snd]; [|auto].
+  destruct (repr_drained q fs t v rest Hd H Eq). auto.
+Qed.
+
+Lemma take2_refines {T} t (w : N -> N -> option T) q fs : keys_distinct q -> repr q fs ->
+  fst (q_take2 t w q) = fst (take2 t w fs) /\
+  repr (snd (q_take2 t w q)) (snd (take2 t w fs)) /\ keys_distinct (snd (q_take2 t w q)).
+Proof.
+  intros Hd H. unfold q_take2, take2. rewrite !get_first_queue, queue_remove_same, (H t).
+  destruct (queue t fs) as [|v0 [|v1 rest]] eqn:Eq; cbn [nonempty hd_error tl]; [auto|auto|].
+  destruct (w v0 v1) as [x|]; cbn [fst snd]; [|auto].
+  destruct (repr_drained q fs t v0 (v1 :: rest) Hd H Eq) as [R1 D1].
+  assert (Eq2 : queue t (remove_first t fs) = v1 :: rest) by (rewrite queue_remove_same, Eq; reflexivity).
+  assert (Hdr : q_drained t rest q = q_drained t rest (q_drained t (v1 :: rest) q)).
+  { unfold q_drained at 3. cbn iota. unfold q_drained. destruct rest as [|y r].
+    - clear. induction q as [|[t' l'] r IH]; cbn [q_set q_remove]; [rewrite N.eqb_refl; reflexivity|].
+      destruct (N.eqb_spec t' t) as [->|Hn]; cbn [q_remove].
+      + rewrite N.eqb_refl. reflexivity.
+      + destruct (N.eqb_spec t' t); [contradiction|]. rewrite IH. reflexivity.
+    - clear. induction q as [|[t' l'] r0 IH]; cbn [q_set]; [rewrite N.eqb_refl; reflexivity|].
+      destruct (N.eqb_spec t' t) as [->|Hn]; cbn [q_set].
+      + rewrite N.eqb_refl. reflexivity.
+      + destruct (N.eqb_spec t' t); [contradiction|]. rewrite IH. reflexivity. }
+  rewrite Hdr. split; [reflexivity|]. exact (repr_drained _ _ t v1 rest D1 R1 Eq2).
+Qed.
+
+Lemma q_get_in t q l : q_get t q = Some l -> In (t, l) q.
+Proof.
+  induction q as [|[t' l'] r IH]; cbn [q_get]; [discriminate|].
+  destruct (N.eqb_spec t' t) as [->|Hn]; intros H; [inversion H; left; reflexivity|right; auto].
+Qed.
+
+Lemma in_q_get t l q : keys_distinct q -> In (t, l) q -> q_get t q = Some l.
+Proof.
+  induction q as [|[t' l'] r IH]; intros Hd Hin; [contradiction|]. cbn [keys_distinct] in Hd.
+  destruct Hd as [H1 H2]. cbn [q_get]. destruct Hin as [E|Hin].
+  - inversion E; subst. rewrite N.eqb_refl. reflexivity.
+  - destruct (N.eqb_spec t' t) as [->|Hn]; [|auto].
+    rewrite (IH H2 Hin) in H1. discriminate.
+Qed.
+
+Lemma queue_nonempty_in t fs : queue t fs <> [] <-> exists v, In (t, v) fs.
+Proof.
+  induction fs as [|[t' v'] r IH]; cbn [queue].
+  - split; [congruence|intros [v []]].
+  - destruct (N.eqb_spec t' t) as [->|Hn].
+    + split; [intros _; exists v'; left; reflexivity|discriminate].
+    + rewrite IH. split; intros [v Hv]; exists v; [right; assumption|].
+      destruct Hv as [E|Hv]; [inversion E; congruence|assumption].
+Qed.
+
+Lemma has_even_refines q fs : keys_distinct q -> repr q fs -> q_has_even q = has_even_tag fs.
+Proof.
+  intros Hd H. unfold q_has_even, has_even_tag.
+  destruct (existsb (fun p : N * N => N.eqb (fst p mod 2) 0) fs) eqn:E.
+  - apply existsb_exists in E. destruct E as [[t v] [Hin Hev]]. apply existsb_exists.
+    assert (Hq : queue t fs <> []) by (apply queue_nonempty_in; eauto).
+    specialize (H t). destruct (queue t fs) as [|x l] eqn:Eq; [congruence|]. cbn [nonempty] in H.
+    exists (t, x :: l). split; [apply q_get_in; assumption|exact Hev].
+  - destruct (existsb (fun p : N * list N => N.eqb (fst p mod 2) 0) q) eqn:E2; [|reflexivity].
+    apply existsb_exists in E2. destruct E2 as [[t l] [Hin Hev]].
+    pose proof (in_q_get _ _ _ Hd Hin) as Hg. rewrite (H t) in Hg.
+    assert (Hq : queue t fs <> []) by (destruct (queue t fs); [discriminate|discriminate]).
+    apply queue_nonempty_in in Hq. destruct Hq as [v Hv].
+    rewrite <- E. symmetry. apply existsb_exists. exists (t, v). split; assumption.
+Qed.
+
+Lemma repr_empty : repr [] [] /\ keys_distinct [].
+Proof. split; [intros t; reflexivity|exact I]. Qed.
+
+(* the model's parse_message is the generic one over the pair list *)
+Lemma parse_message_generic n_out m :
+  parse_message n_out m =
+  let '(flaw, r, flags, fs) := g_parse fields (@take1) (@take2) has_even_tag n_out (m_flaw m) (m_edicts m) (m_fields m) in
+  mkParsed flaw r flags fs.
+Proof.
+  unfold parse_message, g_parse, parse_etching, g_parse_etching, parse_terms, g_parse_terms.
+  repeat match goal with |- context [let '(a, b) := ?X in _] => destruct X end; reflexivity.
+Qed.
+
+(* two field stores related by R, whose operations agree, give the same parse *)
+Section GenericRel.
+  Variables (F1 F2 : Type) (R : F1 -> F2 -> Prop).
+  Variable ta1 : forall T : Type, N -> (N -> option T) -> F1 -> option T * F1.
+  Variable ta2 : forall T : Type, N -> (N -> N -> option T) -> F1 -> option T * F1.
+  Variable ea : F1 -> bool.
+  Variable tb1 : forall T : Type, N -> (N -> option T) -> F2 -> option T * F2.
+  Variable tb2 : forall T : Type, N -> (N -> N -> option T) -> F2 -> option T * F2.
+  Variable eb : F2 -> bool.
+  Hypothesis H1 : forall T t w a b, R a b ->
+    fst (ta1 T t w a) = fst (tb1 T t w b) /\ R (snd (ta1 T t w a)) (snd (tb1 T t w b)).
+  Hypothesis H2 : forall T t w a b, R a b ->
+    fst (ta2 T t w a) = fst (tb2 T t w b) /\ R (snd (ta2 T t w a)) (snd (tb2 T t w b)).
+  Hypothesis He : forall a b, R a b -> ea a = eb b.
+
+  Ltac step1 t w a b HR R' :=
+    let E := fresh "E" in
+    destruct (H1 N t w a b HR) as [E R'];
+    destruct (ta1 N t w a) as [? ?]; destruct (tb1 N t w b) as [? ?];
+    cbn [fst snd] in E, R'; subst.
+
+  Lemma g_parse_terms_rel a b : R a b ->
+    fst (g_parse_terms F1 ta1 a) = fst (g_parse_terms F2 tb1 b) /\
+    R (snd (g_parse_terms F1 ta1 a)) (snd (g_parse_terms F2 tb1 b)).
+  Proof.
+    intros HR. unfold g_parse_terms.
+    step1 TAG_Cap w_any a b HR R1.
+    match goal with HR : R ?a ?b |- context [ta1 N TAG_HeightStart to_u64 ?a] => step1 TAG_HeightStart to_u64 a b HR R2 end.
+    match goal with HR : R ?a ?b |- context [ta1 N TAG_HeightEnd to_u64 ?a] => step1 TAG_HeightEnd to_u64 a b HR R3 end.
+    match goal with HR : R ?a ?b |- context [ta1 N TAG_Amount w_any ?a] => step1 TAG_Amount w_any a b HR R4 end.
+    match goal with HR : R ?a ?b |- context [ta1 N TAG_OffsetStart to_u64 ?a] => step1 TAG_OffsetStart to_u64 a b HR R5 end.
+    match goal with HR : R ?a ?b |- context [ta1 N TAG_OffsetEnd to_u64 ?a] => step1 TAG_OffsetEnd to_u64 a b HR R6 end.
+    cbn [fst snd]. split; [reflexivity|assumption].
+  Qed.
+
+  Lemma g_parse_etching_rel flags a b : R a b ->
+    fst (g_parse_etching F1 ta1 flags a) = fst (g_parse_etching F2 tb1 flags b) /\
+    R (snd (g_parse_etching F1 ta1 flags a)) (snd (g_parse_etching F2 tb1 flags b)).
+  Proof.
+    intros HR. unfold g_parse_etching.
+    step1 TAG_Divisibility w_divisibility a b HR R1.
+    match goal with HR : R ?a ?b |- context [ta1 N TAG_Premine w_any ?a] => step1 TAG_Premine w_any a b HR R2 end.
+    match goal with HR : R ?a ?b |- context [ta1 N TAG_Rune w_any ?a] => step1 TAG_Rune w_any a b HR R3 end.
+    match goal with HR : R ?a ?b |- context [ta1 N TAG_Spacers w_spacers ?a] => step1 TAG_Spacers w_spacers a b HR R4 end.
+    match goal with HR : R ?a ?b |- context [ta1 N TAG_Symbol w_symbol ?a] => step1 TAG_Symbol w_symbol a b HR R5 end.
+    destruct (flag_take FLAG_Terms flags) as [ht fl1].
+    match goal with HR : R ?a ?b |- context [g_parse_terms F1 ta1 ?a] =>
+      destruct (g_parse_terms_rel a b HR) as [Et Rt];
+      destruct (g_parse_terms F1 ta1 a) as [t1 a6]; destruct (g_parse_terms F2 tb1 b) as [t2 b6];
+      cbn [fst snd] in Et, Rt; subst t2 end.
+    destruct (flag_take FLAG_Turbo fl1) as [tb fl2].
+    destruct ht; cbn [fst snd]; (split; [reflexivity|assumption]).
+  Qed.
+
+  Lemma g_parse_rel n_out mflaw es a b : R a b ->
+    fst (g_parse F1 ta1 ta2 ea n_out mflaw es a) = fst (g_parse F2 tb1 tb2 eb n_out mflaw es b) /\
+    R (snd (g_parse F1 ta1 ta2 ea n_out mflaw es a)) (snd (g_parse F2 tb1 tb2 eb n_out mflaw es b)).
+  Proof.
+    intros HR. unfold g_parse.
+    step1 TAG_Flags w_any a b HR R1.
+    match goal with |- context [flag_take FLAG_Etching ?f] => destruct (flag_take FLAG_Etching f) as [is_e flags] end.
+    match goal with HR : R ?a ?b |- context [g_parse_etching F1 ta1 flags ?a] =>
+      destruct (g_parse_etching_rel flags a b HR) as [Ee Re];
+      destruct (g_parse_etching F1 ta1 flags a) as [[e1 fa] a2]; destruct (g_parse_etching F2 tb1 flags b) as [[e2 fb] b2];
+      cbn [fst snd] in Ee, Re; inversion Ee; subst e2 fb;
+      assert (HR2 : R (if is_e then a2 else a) (if is_e then b2 else b)) by (destruct is_e; assumption)
+    end.
+    destruct is_e.
+    - destruct (H2 RuneId TAG_Mint w_mint _ _ Re) as [Em Rm].
+      destruct (ta2 RuneId TAG_Mint w_mint a2) as [? a3]; destruct (tb2 RuneId TAG_Mint w_mint b2) as [? b3].
+      cbn [fst snd] in Em, Rm; subst.
+      step1 TAG_Pointer (w_pointer n_out) a3 b3 Rm Rp.
+      cbn [fst snd]. rewrite (He _ _ Rp). split; [reflexivity|assumption].
+    - match goal with HR : R ?a ?b |- context [ta2 RuneId TAG_Mint w_mint ?a] =>
+        destruct (H2 RuneId TAG_Mint w_mint a b HR) as [Em Rm];
+        destruct (ta2 RuneId TAG_Mint w_mint a) as [? a3]; destruct (tb2 RuneId TAG_Mint w_mint b) as [? b3];
+        cbn [fst snd] in Em, Rm; subst end.
+      step1 TAG_Pointer (w_pointer n_out) a3 b3 Rm Rp.
+      cbn [fst snd]. rewrite (He _ _ Rp). split; [reflexivity|assumption].
+  Qed.
+End GenericRel.
+
+
+Definition rel (q : qmap) (fs : fields) : Prop := repr q fs /\ keys_distinct q.
+
+Lemma from_integers_q_refines n_out : forall k ints q fs0, (length ints <= k)%nat -> rel q fs0 ->
+  match from_integers n_out ints, from_integers_q n_out q ints with
+  | Ok m, Ok (f, es, q') => f = m_flaw m /\ es = m_edicts m /\ rel q' (fs0 ++ m_fields m)
+  | Err e, Err e' => e = e'
+  | Panic t, Panic t' => t = t'
+  | _, _ => False
+  end.
+Proof.
+  induction k as [|k IH]; intros ints q fs0 Hl HR.
+  - destruct ints; [|cbn [length] in Hl; lia]. cbn. rewrite app_nil_r. auto.
+  - destruct ints as [|tag rest]; [cbn; rewrite app_nil_r; auto|].
+    cbn [from_integers from_integers_q]. destruct (N.eqb TAG_Body tag).
+    + destruct (edicts_from n_out (mkId 0 0) rest) as [[es f]|e|t]; cbn [bind m_flaw m_edicts m_fields];
+        [rewrite app_nil_r; auto|reflexivity|reflexivity].
+    + destruct rest as [|v rest']; [cbn [m_flaw m_edicts m_fields]; rewrite app_nil_r; auto|].
+      assert (HR' : rel (q_push tag v q) (fs0 ++ [(tag, v)])).
+      { destruct HR as [Hr Hd]. split; [apply repr_push; assumption|apply keys_distinct_push; assumption]. }
+      specialize (IH rest' (q_push tag v q) (fs0 ++ [(tag, v)]) ltac:(cbn [length] in Hl; lia) HR').
+      destruct (from_integers n_out rest') as [m|e|t]; cbn [bind];
+        destruct (from_integers_q n_out (q_push tag v q) rest') as [[[f es] q']|e'|t']; try contradiction; try assumption.
+      cbn [m_flaw m_edicts m_fields]. destruct IH as (-> & -> & Hrel). rewrite <- app_assoc in Hrel. auto.
+Qed.
+
+
+Theorem decipher_q_eq outs : decipher_q outs = decipher outs.
+Proof.
+  unfold decipher_q, decipher. destruct (payload outs) as [[[bs|f]|]|e|t]; cbn [bind]; try reflexivity.
+  destruct (integers (length bs) bs) as [[ints|]|e|t]; cbn [bind]; try reflexivity.
+  pose proof (from_integers_q_refines (len outs) (length ints) ints [] [] (le_n _) repr_empty) as H.
+  destruct (from_integers (len outs) ints) as [m|e|t];
+    destruct (from_integers_q (len outs) [] ints) as [[[f es] q]|e'|t']; try contradiction; cbn [bind]; try congruence.
+  destruct H as (-> & -> & Hrel). cbn [app] in Hrel.
+  rewrite parse_message_generic.
+  pose proof (g_parse_rel qmap fields rel (@q_take1) (@q_take2) q_has_even (@take1) (@take2) has_even_tag) as G.
+  assert (G1 : forall T t w a b, rel a b ->
+     fst (@q_take1 T t w a) = fst (@take1 T t w b) /\ rel (snd (@q_take1 T t w a)) (snd (@take1 T t w b))).
+  { intros T t w a b [Hr Hd]. destruct (take1_refines t w a b Hd Hr) as (A & B & C). split; [assumption|split; assumption]. }
+  assert (G2 : forall T t w a b, rel a b ->
+     fst (@q_take2 T t w a) = fst (@take2 T t w b) /\ rel (snd (@q_take2 T t w a)) (snd (@take2 T t w b))).
+  { intros T t w a b [Hr Hd]. destruct (take2_refines t w a b Hd Hr) as (A & B & C). split; [assumption|split; assumption]. }
+  assert (G3 : forall a b, rel a b -> q_has_even a = has_even_tag b).
+  { intros a b [Hr Hd]. apply has_even_refines; assumption. }
+  specialize (G G1 G2 G3 (len outs) (m_flaw m) (m_edicts m) q (m_fields m) Hrel). destruct G as [Ge _].
+  destruct (g_parse qmap (@q_take1) (@q_take2) q_has_even (len outs) (m_flaw m) (m_edicts m) q) as [[[fl1 r1] fg1] q1].
+  destruct (g_parse fields (@take1) (@take2) has_even_tag (len outs) (m_flaw m) (m_edicts m) (m_fields m)) as [[[fl2 r2] fg2] q2].
+  cbn [fst] in Ge. inversion Ge; subst. reflexivity.
+Qed.
